@@ -7,9 +7,14 @@
     like the C++ (`old_duration + duration`, `it->on_time += it->off_time`, `duration - on_time`,
     `on_time(new) - old`, …).
   * `int16_t` members (`shuffle`, `echo_volume`, `Event::param`) are `Int` kept in range by
-    `wrapS16` at every store; `int` members (`octave`, the `note` argument) are unbounded `Int`
-    — `Track.Op.ub` says when the C++ `int` arithmetic of an operation would overflow
-    (undefined behaviour; UBSan aborts), and `Track.applyOp` reports `ub:signed-overflow` there.
+    `wrapS16` at every store; `int` members (`octave`, the `note` argument) are `Int`.  Since the
+    repairs a16b488 / a22a11c the octave arithmetic is done in `unsigned` and converted back:
+    `add_note` stores `(int)((unsigned)note + (unsigned)octave * 12u)` = `wrapS32 (note + octave*12)`
+    and `change_octave` stores `(int)((unsigned)octave + (unsigned)param)` = `wrapS32 (octave + param)`
+    (two's complement, 32 bit).  The one `int` addition left is `note += drum_mode` (drum mode):
+    `Track.opUB` says when it would overflow (undefined behaviour; UBSan aborts) and
+    `Track.applyOp` reports `ub:signed-overflow` there — reachable through the API only
+    (`read_note` hands `add_note` a value in −1..12, `drum_mode` is a `uint16_t`).
   * `uint8_t sharp_mask/flat_mask` are `Nat < 256`.
   * `std::vector<Event> events` is stored NEWEST FIRST in `revEvents` (`add_event` = cons;
     the reverse-iterator walks of `add_slur` / `reverse_rest` are structural recursion from
@@ -21,6 +26,8 @@
 
   Narrowings made explicit (diff them against the source)
   * `add_event(type, int16_t param, …)`                       `wrapS16 param`
+  * `add_note`: `(int)((unsigned)note + (unsigned)octave*12u)`   `wrapS32 (note + octave*12)`
+  * `change_octave`: `(int)((unsigned)octave + (unsigned)param)` `wrapS32 (octave + param)`
   * `add_note`: `push_echo_note(uint16_t note)` from `int`      `UInt16.ofNat (wrapU16 note)`
   * `add_shuffle`: `uint16_t` return of `int duration+shuffle`   `UInt16.ofNat` (mod 65536)
   * `shuffle = -shuffle` on `int16_t`                            `wrapS16 (-s)`  (−32768 stays)
@@ -131,9 +138,10 @@ def flipShuffle (t : Track) : Track := { t with shuffle := wrapS16 (-t.shuffle) 
 def pushEchoNote (t : Track) (note : UInt16) : Track :=
   { t with echoBuffer := (note :: t.echoBuffer).take trackEchoBufferSize }
 
-/-- the `int` value `add_note` stores: `note + octave*12` or `note + drum_mode` -/
+/-- the `int` value `add_note` stores: `(int)((unsigned)note + (unsigned)octave * 12u)` (wraps
+to 32 bits, fix a16b488) or `note + drum_mode` -/
 def notePitch (t : Track) (note : Int) : Int :=
-  if !t.inDrumMode then note + t.octave * 12 else note + t.drumMode.toNat
+  if !t.inDrumMode then wrapS32 (note + t.octave * 12) else note + t.drumMode.toNat
 
 /-- `Track::add_note(note,duration)` -/
 def addNote (t : Track) (note : Int) (duration : UInt16 := 0) : Track :=
@@ -253,7 +261,8 @@ def reverseRest (t : Track) (duration : UInt16 := 0) : Track × RRes :=
   ({ t with revEvents := (rrBack duration t.revEvents).2 }, (rrBack duration t.revEvents).1)
 
 def setOctave (t : Track) (p : Int) : Track := { t with octave := p }
-def changeOctave (t : Track) (p : Int) : Track := { t with octave := t.octave + p }
+/-- `Track::change_octave(param)`: `octave = (int)((unsigned)octave + (unsigned)param)` (fix a22a11c) -/
+def changeOctave (t : Track) (p : Int) : Track := { t with octave := wrapS32 (t.octave + p) }
 def setDuration (t : Track) (p : UInt16) : Track := { t with defaultDuration := p }
 
 /-- `Track::set_quantize(param, parts)`: track and return value -/
@@ -369,12 +378,10 @@ inductive Op
   | getKeySignature (note : Int)
   deriving Repr
 
-/-- does the C++ `int` arithmetic of the operation overflow (undefined behaviour)? -/
+/-- does the C++ `int` arithmetic of the operation overflow (undefined behaviour)?  Only
+`note += drum_mode` of `add_note` in drum mode is still an `int` addition. -/
 def opUB (t : Track) : Op → Bool
-  | .addNote note _ =>
-    if !t.inDrumMode then !(inInt32 (t.octave * 12)) || !(inInt32 (note + t.octave * 12))
-    else !(inInt32 (note + t.drumMode.toNat))
-  | .changeOctave p => !(inInt32 (t.octave + p))
+  | .addNote note _ => t.inDrumMode && !(inInt32 (note + t.drumMode.toNat))
   | _ => false
 
 /-- one API call: the track afterwards and what the call reported (return value or the
